@@ -103,6 +103,7 @@ func c02(r *core.Run) {
 	r.Rule("W2", "With finds every handler that matches (shared with C06.R12): the matcher records a literal or placeholder node as the match only when it has a handler, otherwise it goes on to the placeholder and wildcard siblings; else With reports an error and runs nothing for an id that a registered handler matches", 1)
 	r.Rule("W3", "With looks the handler up without touching shared state (shared with C06.R6): no function reachable from Mux.GetHandler writes Mux / node / handler state or appends into a slice held there; With, Resource and the listener run lookups concurrently, so a shared scratch buffer makes With report an error for a resource that has a handler, or queue the callback under another resource's group", 1)
 	r.Rule("W4", "callbacks of a group share its queue (the group-tag obligations of C06.R2, shared with C01.F4): the index of a ${tag} part of a group template is used for nothing but indexing the tokens - a template whose tag sits on the first token must not evaluate to the empty id, which is the marker for 'no group' and makes every callback an independent work item, started in any order", 1)
+	r.Rule("W6", "With runs nothing for a name no handler matches (shared with C06.R7): in the lookup the remainder of the name after the mux path is taken only after the byte following the path was tested to be the token separator - otherwise With(\"testmodel\", cb) on service \"test\" finds the handler of test.model, returns nil and runs cb", 1)
 	r.Rule("W5", "WithResource and query callbacks join the queue of the resource they were handed (shared with C01.F2): the group a Resource / Request reports is the routed Match.Group - the evaluated id -, every enqueue is keyed by it, and an unset group defaults to the full resource name; a request carrying the raw option string instead queues WithResource(request, cb) and its query callbacks under another id, where they overtake the callbacks submitted before them", 8)
 	r.Rule("H2", "an accepted callback has a worker (shared with C03.S2): every worker is started before the service is published as started - the state from which enqueue accepts callbacks; a callback accepted earlier than that sits in the queue with nobody to run it (an OnServe callback waiting for its own With callback never returns)", 1)
 	r.Rule("V1", "each queued callback handles its own message (shared with C15.C1 / C16.V1): no closure created in a loop and handed to the queue captures a variable the loop re-assigns - with the module's go directive a shared loop variable makes every queued closure see the latest message, so one is handled several times and another never", 1)
@@ -248,6 +249,7 @@ func c02(r *core.Run) {
 	c03WorkersBeforeStarted(r, "H2", a, root)
 	c06PureLookup(r, "W3")
 	c01GroupArg(r, "W5", a, root)
+	c06PrefixBoundary(r, "W6")
 	if ro := resolveMuxRolesFor(r, "W4"); ro != nil {
 		c06Units(r, "W4", root, ro, true)
 	}
